@@ -73,7 +73,7 @@ chk("C09","E3-hist","model_checking",
   "Trusted: the canonical-state abstraction (cross-checked on all merged pairs up to d1); single-audio-section SDPs; the mid counter is not observable through the public API.",
   "explicit-state search by history replay on real objects with a reference state machine and an atomicity oracle","DESIGN.md 4.9")
 chk("C14","E3-hist","model_checking",
-  "All operation sequences to depth 5 (quick) / 6 (thorough) over a 15-op alphabet (install keys, send_rtp, raw send, send_rtcp, sync BYE, receive clear / protected / wrong-key RTP and RTCP, bridge to keyed / unkeyed target, clear bridge, close) on a real SRTP-mandatory RtpTransport with two bridge targets on in-memory sockets, for 2-3 profiles; every captured datagram must authenticate under webrtc-srtp with the emitter's keys, nothing may be emitted before keys exist, nothing unauthenticated may reach listeners / observers / the bridged peer.",
+  "All operation sequences to depth 5 (quick) / 6 (thorough) over a 15-op alphabet (install keys, send_rtp, raw send, send_rtcp, sync BYE, receive clear / protected / wrong-key RTP and RTCP, bridge to keyed / unkeyed target, clear bridge, close) on a real SRTP-mandatory RtpTransport with two bridge targets on in-memory sockets, for 2-3 profiles; every captured datagram must authenticate under webrtc-srtp with the emitter's keys, nothing may be emitted before keys exist, nothing unauthenticated may reach listeners / observers / the bridged peer. PeerConnection-level part: a real-loopback lattice mode {Srtp, WebRtc} x offerer x 4 remote-description variants (well-formed, missing / mismatching / short keys, DTLS never completing) x 3 injection phases x cleartext RTP / RTCP x close / drop (192-216 points), thrice-confirmed.",
   "Trusted: webrtc-srtp 0.17 as reference (its AES-CM SRTCP path needs the E bit checked first, see evidence assumptions). Operation-granularity interleavings only.",
   "explicit-state history enumeration on real transports judged against an independent SRTP implementation","DESIGN.md 4.14")
 
@@ -95,6 +95,11 @@ chk("C08","E4-enum","exploration",
   "Complete enumeration of a grammar-generated offer space (1 section over a 678-letter alphabet x BUNDLE x setup x attribute level; all ordered pairs of sections over 54 / 438 letters; words of 3-6 sections over a reduced alphabet; second negotiations via 7 change operators) x 8 local configurations on real PeerConnections (quick 2.9e5 cases, thorough 9.7e6); oracle = the RFC 3264 / JSEP answer relation read from the SDP text by the harness's own parser (section count/order/kind/mid, formats, RTX apt, extmap ids, rtcp-mux, BUNDLE, direction table, setup role, format meaning) plus parse-print identity.",
   "Grammar residue: one simulcast shape, no candidates / ssrc / msid lines; setup varied only for <= 2 sections. Round trip compared modulo the printer's documented attribute reordering.",
   "exhaustive enumeration of a grammar-generated offer space on real PeerConnections with a text-level answer-relation oracle","DESIGN.md 4.8")
+
+chk("C17","E5-loopback","fault_enumeration",
+  "Crash points x terminating events x modes on real loopback PeerConnections in private runtimes (one worker process per batch, so task and socket-descriptor accounting is exact): quick = every API-observable phase boundary (9-11 per mode) x {close, drop, ICE stop, blocked sender then close} x acting side, each also judged from the peer's side (182 cases); thorough adds EVERY datagram boundary through a UDP relay, relay silence and ordered pairs of events (about 1280 cases). Oracle: terminal state + reason, Close exactly once then end-of-stream on every opened channel, pending and subsequent calls return, tasks and sockets released, second close harmless. Transport-level part (engine E2, simulator): peer ABORT / SHUTDOWN / SHUTDOWN-ACK sealed under the peer's DTLS keys at every datagram boundary of the association, default and small windows, both roles.",
+  "Real sockets and wall-clock grace periods in the PeerConnection part: every failure is re-run three times alone and reported only if it fails every time with the same kind (else FLAKY in the evidence); thread schedules are whatever the 2-worker runtime produces; quick does not wait for the 30 s DTLS handshake bound (counted, deferred to thorough).",
+  "exhaustive crash-point x terminating-event x mode enumeration on real PeerConnections with task/fd accounting, plus exhaustive datagram-boundary enumeration of peer-initiated SCTP termination on the simulator","DESIGN.md 4.17")
 todo = {p: "check under construction in this round (DESIGN.md section 8 build order); not yet claimed" for p in props if p not in C}
 m = {"version": 1,
  "setup_cmd": "cd /verif/harness && CARGO_NET_OFFLINE=true cargo build --release --offline --workspace",
@@ -103,8 +108,8 @@ m = {"version": 1,
    "baseline_off_cmd": "/verif/baseline.sh", "source_commits": hooks, "add_only": True},
  "engines": [
   {"name":"E1-loom","path":"harness/h_loom","serves_properties":["C20"],"kind_free_text":"loom DPOR over the repository's spsc.rs/track.rs included textually with shadowed primitives"},
-  {"name":"E2-sim","path":"harness/vh/src/{sim,sctp_sim,sctp_props,dtls_sim,explorer,wire}.rs + bin/{c02,c03,c11}.rs","serves_properties":["C01","C02","C03","C07","C11","C12","C13"],"kind_free_text":"deterministic two-endpoint simulator (real IceConn/DTLS/SCTP on an in-memory socket, paused tokio clock, seeded RNG) under a deviation-bounded fault explorer"},
-  {"name":"E5-loopback","path":"harness/vh/src/bin/{c06,c10}.rs","serves_properties":["C06","C10"],"kind_free_text":"finite lattices of configurations / credentials / crash points on real loopback sockets, thrice-confirmed"},
+  {"name":"E2-sim","path":"harness/vh/src/{sim,sctp_sim,sctp_props,dtls_sim,dtls_attacker,explorer,wire,c07live,c17sctp}.rs + bin/{c02,c03,c11}.rs","serves_properties":["C01","C02","C03","C07","C11","C12","C13","C17"],"kind_free_text":"deterministic two-endpoint simulator (real IceConn/DTLS/SCTP on an in-memory socket, paused tokio clock, seeded RNG) under a deviation-bounded fault explorer"},
+  {"name":"E5-loopback","path":"harness/vh/src/bin/{c06,c10,c17}.rs + src/c14pc.rs","serves_properties":["C06","C10","C14","C17"],"kind_free_text":"finite lattices of configurations / credentials / crash points on real loopback sockets, thrice-confirmed"},
   {"name":"E3-hist","path":"harness/vh/src/bin/{c05,c09,c14,c18,c19}.rs","serves_properties":["C05","C09","C14","C18","C19"],"kind_free_text":"explicit-state search over operation histories replayed on fresh real objects"},
   {"name":"E4-enum","path":"harness/vh/src/bin/{c04,c07,c08,c15,c16}.rs + src/c07/","serves_properties":["C04","C07","C08","C15","C16"],"kind_free_text":"complete enumeration of bounded input spaces against reference models / independent implementations"}],
  "checks": [C[p] for p in props if p in C],
